@@ -17,13 +17,19 @@ def consts(ms, me, mc, mr, pinned=False):
     return {'MaxSubmit': str(ms), 'MaxEnv': str(me), 'MaxCycle': str(mc), 'MaxRaw': str(mr), 'Pinned': 'TRUE' if pinned else 'FALSE'}
 
 
-def gen(chk, name, c, sim=None, seed=0):
+def leaves(hs):
+    '''executing a history (every step is validated) covers all its prefixes: keep the maximal ones'''
+    parents = {json.dumps(h[:-1], sort_keys=True) for h in hs}
+    return [h for h in hs if json.dumps(h, sort_keys=True) not in parents]
+
+
+def gen(chk, name, c, sim=None, seed=0, spec='GenSpec'):
     cfg = os.path.join(chk.work, f'{name}.cfg')
     if sim:
         tlc.write_cfg(cfg, spec='GenSpec', constants=c, invariants=['SimInv'])
         res = tlc.run('Lifecycle_Gen.tla', cfg, workers=1, simulate=f'num={sim[0]}', depth=sim[1], seed=seed, timeout=900, out_file=os.path.join(chk.work, f'{name}.out'))
     else:
-        tlc.write_cfg(cfg, spec='GenSpec', constants=c, extra=['VIEW View', 'ACTION_CONSTRAINT Emit'])
+        tlc.write_cfg(cfg, spec=spec, constants=c, extra=['VIEW View', 'ACTION_CONSTRAINT Emit'])
         res = tlc.run('Lifecycle_Gen.tla', cfg, workers=1, timeout=1800, out_file=os.path.join(chk.work, f'{name}.out'))
         if not res.ok:
             raise core.Machinery(f'generation {name} failed: {res.error or res.violated}')
@@ -134,9 +140,24 @@ def run(pid, tier, seed, replay=None):
         chk.mc('mc_big', 'Lifecycle.tla', dict(spec='Spec', constants=consts(3, 3, 2, 1), **MC[pid]))
     trans = gen(chk, 'gen', consts(2, 1, 1, 1))
     total = len(trans)
+    trans = leaves(trans)
     if not thorough:
         rnd.shuffle(trans)
-        trans = trans[:3000]
+        trans = trans[:2500]
+    # focus instance: two submissions of any priorities (and an unrecognised one) while work is queued, executing and
+    # a worker is busy, with the environment draining in every order
+    focus = gen(chk, 'focus', consts(2, 2, 0, 0), spec='FocusSpec')
+    total_focus = len(focus)
+    focus = leaves(focus)
+    if not thorough:
+        rnd.shuffle(focus)
+        if pid == 'C12':
+            # every history in which a second submission meets a waiting one; a sample of the others
+            two = [h for h in focus if sum(e['ev'] == 'SubmitEnd' for e in h) >= 2]
+            focus = two + [h for h in focus if sum(e['ev'] == 'SubmitEnd' for e in h) < 2][:300]
+        else:
+            focus = focus[:500]
+    trans = trans + focus
     sim = gen(chk, 'sim', consts(4, 4, 3, 2), sim=(3000 if thorough else 400, 40), seed=seed)
     jobs = [{'id': i, 'events': h, 'drain': True} for i, h in enumerate(trans + sim)]
     chk.samples = [j['events'] for j in rnd.sample(jobs, min(3, len(jobs)))]
@@ -147,7 +168,7 @@ def run(pid, tier, seed, replay=None):
     for k in ('update_triggers_accepted', 'poller_fires', 'rejections', 'refusals', 'rearmed_in_callback', 'composite_steps'):
         if not chk.counters.get(k) and not chk.violations:
             raise core.Machinery(f'vacuous run: counter {k} is zero')
-    chk.counters.update(transitions_of_gen_instance=total, transitions_replayed=len(trans), sim_behaviours=len(sim), distinct_nontrivial=len(nontriv))
+    chk.counters.update(transitions_of_gen_instance=total, transitions_of_focus_instance=total_focus, histories_replayed=len(trans), sim_behaviours=len(sim), distinct_nontrivial=len(nontriv))
     chk.assumptions = [
         'reactor callbacks atomic; background steps (load, reload, archive, introspection) complete as separate events in any order TLC chooses; poller threads are real threads gated at every sleep, their deferred callback is a separate event',
         'bodies touching the outside world are stubs (scan/db/git/GUI/log/farm.plow); the FSM, submit Process steps, cmd_reset and farm.dispatch are real',
